@@ -69,8 +69,9 @@ CUTS = [0, 6, 20]
 BASE_DEFS = {
     "ev": {"deps": [], "cname": "Ev", "version": "0.0.1", "opts": {}},
     "pa": {"deps": ["ev"], "cname": "Pa", "version": "0.0.1", "opts": {"opt_a": (1, True), "u_a": (0, False)}},
-    "pb": {"deps": ["pa"], "cname": "Pb", "version": "0.0.1", "opts": {"opt_b": ("x", True), "shared_s": (5, True)}},
-    "pc": {"deps": ["ev"], "cname": "Pc", "version": "0.0.1", "opts": {"shared_s": (5, True)}},
+    # mix_m is taken by two plugins: pb tracks it, pc does not (same default - strax refuses diverging defaults)
+    "pb": {"deps": ["pa"], "cname": "Pb", "version": "0.0.1", "opts": {"opt_b": ("x", True), "shared_s": (5, True), "mix_m": (2, True)}},
+    "pc": {"deps": ["ev"], "cname": "Pc", "version": "0.0.1", "opts": {"shared_s": (5, True), "mix_m": (2, False)}},
     "pe": {"deps": ["pb", "pc"], "cname": "Pe", "version": "0.0.1", "opts": {"opt_e": ((1, 2), True)}},
     # child of pa's class: its option opt_a_child overrides the parent's opt_a
     "pd": {"deps": ["ev"], "cname": "PdChild", "version": "0.0.1", "child_of": "pa",
@@ -184,7 +185,7 @@ def gen_history(seed, idx):
     for _ in range(rng.randint(3, 12)):
         r = rng.random()
         if r < 0.22:
-            opt = rng.choice(["opt_a", "opt_b", "shared_s", "opt_e", "opt_a_child"])
+            opt = rng.choice(["opt_a", "opt_b", "shared_s", "opt_e", "opt_a_child", "mix_m"])
             steps.append({"op": "set_tracked", "opt": opt, "value": rng.choice(VALUES), "who": who()})
         elif r < 0.30:
             steps.append({"op": "set_untracked", "opt": "u_a", "value": rng.choice(VALUES), "who": who()})
@@ -342,7 +343,7 @@ def run_history(h):
                                 if o in dd["opts"]:
                                     return dd["opts"][o][0]
                         same = json.dumps(eff(old_cfg, s["opt"]), default=repr) == json.dumps(eff(config, s["opt"]), default=repr)
-                        takers = [n for n, dd in defs.items() if s["opt"] in dd["opts"]]
+                        takers = [n for n, dd in defs.items() if s["opt"] in dd["opts"] and dd["opts"][s["opt"]][1]]
                         expect_changed = set() if same else set().union(*[descendants(defs, n) for n in takers]) if takers else set()
                 else:
                     p = s["plugin"]
